@@ -934,7 +934,209 @@ fn nt_c14(_c: &Case, _out: &Outcome, h: &Hist) -> bool {
     h.sends.iter().any(|s| s.query && s.replies.len() >= 2) || !flow::dynamic_connections(h).is_empty()
 }
 
+
+// ---------------------------------------------------------------- component harnesses (C12, C13, C15)
+use crate::ctx::{CompEv, Ev, QRes};
+use crate::oracle::comp as ocomp;
+
+fn comp_case(rng: &mut Rng, profile: &str, comp: Comp) -> Case {
+    let mut cfg = gen::gen_config(rng, &BenchOpts { st_only: true, ..Default::default() });
+    cfg.threads = 1;
+    Case { profile: profile.into(), cfg, nodes: vec![], sinks: vec![], sources: vec![], script: vec![], aux: vec![], comp: Some(comp) }
+}
+
+fn gen_c12(rng: &mut Rng, thorough: bool) -> Case {
+    if rng.pct(60) {
+        let cap = *rng.pick(&[1u8, 1, 2, 2, 3, 4, 5, 8]);
+        let mut next = 100u64;
+        let np = rng.range(1, 3) as usize;
+        let producers: Vec<Vec<QOp>> = (0..np)
+            .map(|_| {
+                (0..rng.range(1, if thorough { 5 } else { 4 }))
+                    .map(|_| {
+                        let r = rng.below(100);
+                        if r < 80 {
+                            next += 1;
+                            QOp::Push(next)
+                        } else if r < 88 {
+                            QOp::Close
+                        } else {
+                            QOp::Yield
+                        }
+                    })
+                    .collect()
+            })
+            .collect();
+        let consumer: Vec<QOp> = (0..rng.range(2, if thorough { 10 } else { 8 }))
+            .map(|_| {
+                let r = rng.below(100);
+                if r < 45 {
+                    QOp::Pop
+                } else if r < 80 {
+                    QOp::Release
+                } else if r < 86 {
+                    QOp::Close
+                } else {
+                    QOp::Yield
+                }
+            })
+            .collect();
+        comp_case(rng, "queue", Comp::Queue(QueueCase { cap, producers, consumer }))
+    } else {
+        let cap = *rng.pick(&[1u8, 1, 2, 3]);
+        let mut next = 500u64;
+        let np = rng.range(1, 3) as usize;
+        let producers: Vec<Vec<u64>> = (0..np)
+            .map(|_| {
+                (0..rng.range(1, 4))
+                    .map(|_| {
+                        next += 1;
+                        next
+                    })
+                    .collect()
+            })
+            .collect();
+        let total: u64 = producers.iter().map(|v| v.len() as u64).sum();
+        let close_after = if rng.pct(25) { Some(rng.below(total + 1) as u8) } else { None };
+        let sender_close = if close_after.is_none() && rng.pct(20) {
+            let p = rng.usize(np);
+            Some((p as u8, rng.usize(producers[p].len()) as u8))
+        } else {
+            None
+        };
+        comp_case(rng, "channel", Comp::Chan(ChanCase { cap, producers, close_after, sender_close }))
+    }
+}
+fn check_c12(case: &Case, out: &Outcome, h: &Hist, _g: &mut Group) -> Vec<Violation> {
+    let mut v = oracle::common(case, out, h);
+    if out.failure.is_none() {
+        match case.comp.as_ref() {
+            Some(Comp::Queue(q)) => v.extend(ocomp::queue_rules(q, &out.log)),
+            Some(Comp::Chan(c)) => v.extend(ocomp::chan_rules(c, &out.log)),
+            _ => {}
+        }
+    }
+    v
+}
+fn nt_c12(case: &Case, out: &Outcome, _h: &Hist) -> bool {
+    match case.comp.as_ref() {
+        Some(Comp::Queue(_)) => {
+            out.log.iter().any(|e| matches!(e, Ev::Comp(CompEv::QReturn { res: QRes::Full, .. }))) && out.log.iter().any(|e| matches!(e, Ev::Comp(CompEv::QReturn { res: QRes::Val(_), .. })))
+        }
+        Some(Comp::Chan(_)) => probe(out, Probe::PushFull) > 0 || probe(out, Probe::RecvWaited) > 0,
+        _ => false,
+    }
+}
+
+fn gen_c13(rng: &mut Rng, thorough: bool) -> Case {
+    let ready_at = rng.range(1, 4) as u8;
+    let nthreads = rng.range(2, 3) as usize;
+    let weights: &[(TOp, u64)] = &[
+        (TOp::Run, 30),
+        (TOp::DropRunnable, 4),
+        (TOp::WakeVal, 10),
+        (TOp::WakeRef, 14),
+        (TOp::CloneWaker, 6),
+        (TOp::DropWaker, 8),
+        (TOp::Cancel, 6),
+        (TOp::DropToken, 4),
+        (TOp::PollPromise, 8),
+        (TOp::DropPromise, 6),
+        (TOp::Yield, 4),
+    ];
+    let total: u64 = weights.iter().map(|w| w.1).sum();
+    let threads: Vec<Vec<TOp>> = (0..nthreads)
+        .map(|_| {
+            (0..rng.range(2, if thorough { 8 } else { 6 }))
+                .map(|_| {
+                    let mut r = rng.below(total);
+                    for (op, w) in weights {
+                        if r < *w {
+                            return *op;
+                        }
+                        r -= *w;
+                    }
+                    TOp::Yield
+                })
+                .collect()
+        })
+        .collect();
+    let t = TaskCase { with_promise: rng.pct(65), ready_at, self_wake: rng.pct(30), panic_at: if rng.pct(10) { Some(rng.range(1, ready_at as u64) as u8) } else { None }, threads };
+    comp_case(rng, "task", Comp::Task(t))
+}
+fn check_c13(case: &Case, out: &Outcome, h: &Hist, _g: &mut Group) -> Vec<Violation> {
+    let mut v = oracle::common(case, out, h);
+    if out.failure.is_none() {
+        if let Some(Comp::Task(t)) = case.comp.as_ref() {
+            v.extend(ocomp::task_rules(t, &out.log));
+        }
+    }
+    v
+}
+fn nt_c13(_case: &Case, out: &Outcome, _h: &Hist) -> bool {
+    // at least two polls and a wake-up or cancellation issued between the first poll's begin and the last poll's end
+    let polls: Vec<usize> = out.log.iter().enumerate().filter(|(_, e)| matches!(e, Ev::Comp(CompEv::TPollBegin { .. }))).map(|(i, _)| i).collect();
+    polls.len() >= 2 && out.log.iter().any(|e| matches!(e, Ev::Comp(CompEv::TOpBegin { op: TOp::WakeVal | TOp::WakeRef | TOp::Cancel | TOp::DropRunnable, .. })))
+}
+
+fn gen_c15(rng: &mut Rng, thorough: bool) -> Case {
+    let writes = rng.range(1, if thorough { 10 } else { 8 }) as u8;
+    let nr = rng.range(1, 3) as usize;
+    let readers: Vec<Vec<bool>> = (0..nr).map(|_| (0..rng.range(1, 8)).map(|_| rng.pct(55)).collect()).collect();
+    let step = *rng.pick(&[(1u32, 1u32), (1, 999_999_937), (3, 400_000_000), (1000, 7)]);
+    comp_case(rng, "timecell", Comp::Time(TimeCase { writes, readers, step }))
+}
+fn check_c15(case: &Case, out: &Outcome, h: &Hist, _g: &mut Group) -> Vec<Violation> {
+    let mut v = oracle::common(case, out, h);
+    if out.failure.is_none() {
+        if let Some(Comp::Time(t)) = case.comp.as_ref() {
+            v.extend(ocomp::time_rules(t, &out.log));
+        }
+    }
+    v
+}
+fn nt_c15(_case: &Case, out: &Outcome, _h: &Hist) -> bool {
+    // a read raced with a write: a retry, a failed try_read, or a value newer than the one published to the reader
+    probe(out, Probe::SeqlockRetry) > 0 || out.log.iter().any(|e| matches!(e, Ev::Comp(CompEv::TimeRead { idx, published, .. }) if *idx == -2 || *idx > *published as i64))
+}
+
 pub static PROPS: &[PropSpec] = &[
+    PropSpec {
+        id: "C12",
+        gen: gen_c12,
+        check: check_c12,
+        nontrivial: nt_c12,
+        variants: single_variant,
+        schedules_quick: 24,
+        schedules_thorough: 64,
+        cases_quick: 12_000,
+        cases_thorough: 240_000,
+        rule: "a case is either a history of <= 14 operations on the real mailbox queue (capacity 1-8, 1-3 producer threads pushing unique values / closing, one consumer popping, holding and releasing borrows / closing) checked for linearizability against a sequential bounded FIFO, or a scenario on the real asynchronous channel (capacity 1-3, 1-3 producers awaiting send, a receiver awaiting recv, close by receiver or by a sender at an arbitrary point); distinct = distinct (decision sequence, history); non-trivial = a push found the queue full and a pop succeeded (queue), a sender or the receiver had to wait (channel)",
+    },
+    PropSpec {
+        id: "C13",
+        gen: gen_c13,
+        check: check_c13,
+        nontrivial: nt_c13,
+        variants: single_variant,
+        schedules_quick: 24,
+        schedules_thorough: 64,
+        cases_quick: 12_000,
+        cases_thorough: 240_000,
+        rule: "a case is a script of 4-24 handle operations (run / drop runnable, wake by value / by reference, clone / drop waker, cancel / drop token, poll / drop promise) distributed over 2-3 threads on one task of the real task state machine (spawn or spawn_and_forget; future ready at poll 1-4, optionally waking itself or panicking in poll); distinct = distinct (decision sequence, history); non-trivial = at least two polls and a wake-up or cancellation",
+    },
+    PropSpec {
+        id: "C15",
+        gen: gen_c15,
+        check: check_c15,
+        nontrivial: nt_c15,
+        variants: single_variant,
+        schedules_quick: 24,
+        schedules_thorough: 64,
+        cases_quick: 12_000,
+        cases_thorough: 240_000,
+        rule: "a case is one writer storing 1-8(10) strictly increasing times (seconds and nanoseconds both change) into the real time cell and publishing the index with release/acquire, and 1-3 reader threads doing 1-8 read()/try_read() calls each; distinct = distinct (decision sequence, history); non-trivial = a read raced with a write (seqlock retry, failed try_read, or a value newer than the published one)",
+    },
     PropSpec {
         id: "C14",
         gen: gen_c14,
